@@ -22,16 +22,16 @@ mut("m01_elseif_skips_right_when_left_empty", "C01", "symbolic.py",
 mut("m03_not_and_wrong_dual", "C03", "symbolic.py", "        operand = ElseIf(Not(operand.left), Not(operand.right))",
     "        operand = AND(Not(operand.left), Not(operand.right))", "De Morgan with the wrong dual: not(a and b) -> not a and not b")
 mut("m03_mapping_ignores_invert", "C03", "symbolic.py",
-    "                elif (not self._invert_ and v.value) or (self._invert_ and not v.value):",
-    "                elif v.value:", "a negated boolean attribute/call is not inverted")
+    "                elif (not self._invert_ and v.value) or (self._invert_ and not v.value):\n                    is_false = False",
+    "                elif v.value:\n                    is_false = False", "a negated boolean attribute/call is not inverted")
 # ---- C02
 mut("m02_dedup_on_first_required_var", "C02", "symbolic.py",
     "        required_output = {k: v for k, v in output.items() if k in required_vars}\n        if not required_output:\n            return False\n        # Use a per-parent",
     "        required_output = {k: v for k, v in output.items() if k in required_vars}\n        required_output = dict(list(required_output.items())[:1])\n        if not required_output:\n            return False\n        # Use a per-parent",
     "duplicate detection keyed on one required variable only: rows that differ in another variable are dropped")
 mut("m02_selected_vars_zip", "C02", "symbolic.py",
-    "        for var_val in var._evaluate__(copy(bindings)):\n            new_bindings = copy(bindings)\n            new_bindings.update(var_val)\n            yield from self._bind_selected_variables_(remaining_vars, new_bindings)",
-    "        for var_val in var._evaluate__(copy(bindings)):\n            new_bindings = copy(bindings)\n            new_bindings.update(var_val)\n            yield from self._bind_selected_variables_(remaining_vars, new_bindings)\n            if remaining_vars and len(bindings) == 0:\n                break",
+    "            for var_val in var._evaluate__(copy(bindings)):\n                new_bindings = copy(bindings)\n                new_bindings.update(var_val)\n                yield from self._bind_selected_variables_(remaining_vars, new_bindings)",
+    "            for var_val in var._evaluate__(copy(bindings)):\n                new_bindings = copy(bindings)\n                new_bindings.update(var_val)\n                yield from self._bind_selected_variables_(remaining_vars, new_bindings)\n                if remaining_vars and len(bindings) == 0:\n                    break",
     "an unconstrained selected variable followed by another one only takes its first value when nothing is bound yet")
 # ---- C04
 mut("m04_an_no_reset_on_abandon", "C04", "symbolic.py",
@@ -90,8 +90,8 @@ mut("m10_forall_no_reset_between_values", "C10", "symbolic.py",
     "for_all re-evaluates its condition without resetting the duplicate tracking: a same-variable disjunction is suppressed on the 2nd value")
 # ---- C11
 mut("m11_args_independent", "C11", "symbolic.py",
-    "        for value in var._evaluate__(copy(bindings)):\n            new_bindings = copy(bindings)\n            new_bindings.update(value)\n            yield from self._bind_child_vars_(remaining_child_vars, new_bindings, {**kwargs, name: value})",
-    "        for value in var._evaluate__(copy(bindings)):\n            yield from self._bind_child_vars_(remaining_child_vars, bindings, {**kwargs, name: value})",
+    "            for value in var._evaluate__(copy(bindings)):\n                new_bindings = copy(bindings)\n                new_bindings.update(value)\n                yield from self._bind_child_vars_(remaining_child_vars, new_bindings, {**kwargs, name: value})",
+    "            for value in var._evaluate__(copy(bindings)):\n                yield from self._bind_child_vars_(remaining_child_vars, bindings, {**kwargs, name: value})",
     "constructor arguments are evaluated independently again (fields of different assignments can mix)")
 # ---- C12
 mut("m12_exceptif_keeps_left_conclusion", "C12", "conclusion_selector.py",
